@@ -1,6 +1,7 @@
 """C09: error contract - bad arguments and failed allocations yield errors, not damage.
 
-Three tests over one table of valid calls of the err_t-returning high-level functions (belt, bash, brng, botp, bels, bign, bign96,
+Three tests (each as a Hypothesis test with generated seeds / variants / argument pairs, allocfail and args additionally as deterministic enumerations
+allocfail_all / args_all that visit every table entry in every run) over one table of valid calls of the err_t-returning high-level functions (belt, bash, brng, botp, bels, bign, bign96,
 g12s, dstu, pfok, bpki, btok CVC / SM, bake drivers; plus the argument builders of props/c15.py for the allocation test):
   allocfail  (ASan + --wrap=malloc/free/realloc/calloc) fault-free run, then the same call with the k-th allocation failing, every k;
   args       (ASan) one scalar / structured argument at a time (and pairs) moved across and beyond its documented domain;
@@ -40,17 +41,8 @@ TIME_ERR = SIZE_MAX     # tm.h: TIME_ERR = (tm_time_t)(0 - 1), tm_time_t = time_
 
 # (function, predicate on the full value dict) -> reason: confirmed disagreements between library and header that are reported, not judged
 EXCLUDED = {
-    # belt_fmt.c: beltFMTEncr/Decr do not check mod; beltFMT_keep ASSERTs (belt_fmt.c:299) instead of ERR_BAD_INPUT
-    "beltFMTEncr": lambda v: "beltFMT_mod_unchecked" if "mod" in v and not 2 <= v["mod"] <= 65536 else None,
-    "beltFMTDecr": lambda v: "beltFMT_mod_unchecked" if "mod" in v and not 2 <= v["mod"] <= 65536 else None,
-    # botp.c:545 / StepV: ASSERT(t != TIME_ERR) although the suite does not use t (botp.h allows any t then)
-    "botpOCRARand": lambda v: "botpOCRA_time_err_unused_t" if v.get("t") == TIME_ERR and "-T" not in v.get("suite", "-T") and v.get("suite") not in OCRA_BAD else None,
-    "botpOCRAVerify": lambda v: "botpOCRA_time_err_unused_t" if v.get("t") == TIME_ERR and "-T" not in v.get("suite", "-T") and v.get("suite") not in OCRA_BAD else None,
-    # bpki.c:441 returns ERR_BAD_SECKEY where bpki.h names ERR_BAD_SHAREKEY ("~": the call is still made, only the code is not compared)
-    # bake.c:1372/1386 (RunA), 1283/1297 (RunB): `M = blobResize(M, ...)` overwrites the only pointer to the growing message blob; when the realloc fails the old block is lost
-    "bakeBSTSRunA": lambda v: "bakeBSTSRun_blobResize_leak" if v.get("k", 0) >= 3 else None,
-    "bakeBSTSRunB": lambda v: "bakeBSTSRun_blobResize_leak" if v.get("k", 0) >= 3 else None,
-    "bpkiShareWrap": lambda v: "~bpkiShareWrap_SECKEY_for_SHAREKEY" if "len" in v and (v["len"] not in (17, 25, 33) or (not v["probe"] and not 1 <= v["num"] <= 16)) else None,
+    # (empty on the current tree: the four disagreements this check found - beltFMT mod unchecked, botpOCRA assert on an unused time mark,
+    #  bakeBSTSRun blobResize leak, bpkiShareWrap error code - are repaired in /repo, see known_findings.json; the mechanism stays for future entries)
 }
 
 
@@ -524,7 +516,7 @@ def pub_alter(l, Q, cls):
     elif cls == "xmax":
         xv = top - 1
     elif cls == "off":
-        yv = (yv + 1) % p       # (x, y + 1) is not on the curve: y^2 + 2y + 1 = y^2 would need 2y + 1 = 0, i.e. y = (p - 1) / 2; then x^3 + ax + b is fixed and y - 1 is used
+        yv = (yv + 1) % p       # (x, y + 1) lies on the curve only if 2y + 1 = 0 (mod p): checked, then (x, y - 1) is taken
         if (yv * yv - (xv ** 3 + M["a"] * xv + M["b"])) % p == 0:
             yv = (yv - 2) % p
     return xv.to_bytes(n, "little") + yv.to_bytes(n, "little")
@@ -1199,7 +1191,7 @@ def add_btok():
         return c17.mkname(c["seed"] + "ca", 8 + c["L"] % 5, "alnum"), c17.mkname(c["seed"] + "ho", 8 + (c["L"] // 5) % 5, "mixed")
 
     def fill(x, c, v, authority, holder, frm=100, until=5000):
-        """btok_cvc_t with the swept content fields; all btokCVC* headers: "\return ERR_OK, если ..., и код ошибки в противном случае" (no code named)"""
+        # btok_cvc_t with the swept content fields; all btokCVC* headers: "\return ERR_OK, если ..., и код ошибки в противном случае" (no code named)
         if v.get("authority", "ok") != "ok":
             authority = {"empty": b"", "short": authority[:7], "np": authority[:-1] + b"\x7f", "star": authority[:-1] + b"*"}[v["authority"]]
         if v.get("holder", "ok") != "ok":
@@ -1392,6 +1384,8 @@ def add_btok():
         def expect(v, c):
             e = []
             if kind == "cmd" and v["cla4"]:
+                if not v["state"]:
+                    return NOJ      # "Указатель state может быть нулевым, и тогда выполняется только кодирование, без защиты": whether the bit is still refused then is not said (C17 expects ERR_OK)
                 e.append("ERR_BAD_APDU")
             if v["state"] and not v["probe"] and v["ctr"] == "wrong":
                 e.append("ERR_BAD_LOGIC")
@@ -1435,8 +1429,12 @@ def add_btok():
 
         def expect(v, c):
             e = []
+            if v["count"] == "zero":
+                return ANY          # neither a 4-octet command header nor SW1 SW2
             if v["count"] != "ok":
-                return ANY
+                # one octet less / more: a protected response (87 L 02 Y 8E 08 T SW1 SW2, strict DER) cannot stay well-formed; an unprotected response of any length >= 2
+                # and a command whose Le field appears / disappears may still be valid encodings (apdu.h): not judged
+                return ANY if kind == "resp" and v["state"] else NOJ
             if v["apdu"] == "mac" and v["state"]:
                 return NOJ if v["probe"] else ANY        # "Указатель cmd может быть нулевым, и тогда выполняется только проверка формата кода, без контроля целостности."
             if v["state"] and not v["probe"] and v["ctr"] == "wrong":
@@ -1532,9 +1530,8 @@ def add_bake():
                 x.call("x_bake_cert", C, x.buf(d), len(d), ret="v")
                 return C
             if proto == "BPACE":
-                n = v.get("pwd_len", len(env["pwd"]))
-                pw = (env["pwd"] + expand(c["seed"] + "pwx", 64))[:n] if v.get("pwd", "ok") == "ok" else expand(c["seed"] + "pwz", n)
-                return fn, [key, P, S, x.buf(pw), n, c04.CH_READ, c04.CH_WRITE, CH]
+                pw = env["pwd"] if v.get("pwd", "ok") == "ok" else expand(c["seed"] + "pwz", max(len(env["pwd"]), 1))      # (another password: never the empty one again)
+                return fn, [key, P, S, x.buf(pw), len(pw), c04.CH_READ, c04.CH_WRITE, CH]
             d = env["d" + role]
             if v.get("priv", "ok") != "ok":
                 d = int.from_bytes(priv_of(c, env["l"], v["priv"], "zz"), "little")
@@ -1586,6 +1583,59 @@ def add_bake():
     for proto in ("BMQV", "BSTS", "BPACE"):
         for role in "ab":
             driver(proto, role)
+
+    # ---- Start functions of the step interfaces (bake.h, btok.h): "\expect{ERR_BAD_PARAMS} Параметры params корректны.", BSTS: "\expect{ERR_BAD_INPUT} settings->kca == TRUE &&
+    # settings->kcb == TRUE.", BAUTH: "\expect{ERR_BAD_INPUT} settings->kca == TRUE.", "\expect{ERR_BAD_CERT} Сертификат cert корректен." (public key of the certificate: coordinates >= p judged)
+    def start(proto, idx):
+        fn = c04.FN[proto]["start"][idx]
+        role = "ab"[idx]
+
+        def defaults(c):
+            cc = bake_case(c, proto if proto != "BAUTH" else "BMQV")
+            d = {"l": cc["l"], "kc": "%d%d" % ((1, 1) if proto == "BSTS" else (1, cc["kcb"]) if proto == "BAUTH" else (cc["kca"], cc["kcb"]))}
+            if proto == "BPACE":
+                d["pwd_len"] = cc["pw"]
+            else:
+                d["cert"] = "ok"
+            return d
+
+        def expect(v, c):
+            cc = bake_case(c, proto if proto != "BAUTH" else "BMQV")
+            e = [e_l(v, cc["l"])]
+            if (proto == "BSTS" and v["kc"] != "11") or (proto == "BAUTH" and v["kc"][0] != "1"):
+                e.append(("ERR_BAD_INPUT",))
+            if v.get("cert", "ok") in ("xp", "yp", "xmax"):
+                e.append(("ERR_BAD_CERT",))
+            elif v.get("cert", "ok") == "off":
+                e.append(NOJ)
+            return merge(*e)
+
+        def build(x, c, v):
+            cc = dict(bake_case(c, proto if proto != "BAUTH" else "BMQV"), proto=proto)
+            env = c04.mk_env(x, cc)
+            no, P, l = env["no"], env["P"], env["l"]
+            S = x.out(env["sizes"][0])
+            ha, hb = env["ha"], env["hb"]
+            x.call("x_bake_settings", S, int(v["kc"][0]), int(v["kc"][1]), x.buf(ha) if ha is not None else None, len(ha or b""), x.buf(hb) if hb is not None else None, len(hb or b""),
+                   x.tape(c04.mk_tape(env, role), 0), ret="v")
+            state = x.out(env["keep"][idx])
+            set_l(x, P, l, v["l"])
+            if proto == "BPACE":
+                return fn, [state, P, S, data(x, c, v["pwd_len"], "pw"), v["pwd_len"]]
+            cert = env["cert" + role]
+            if v["cert"] != "ok":
+                cert = cert[:-2 * no] + pub_alter(l, cert[-2 * no:], v["cert"])
+            C = x.out(env["sizes"][1])
+            x.call("x_bake_cert", C, x.buf(cert), len(cert), ret="v")
+            return fn, [state, P, S, x.buf(env["d" + role].to_bytes(no, "little")), C]
+        sw = {"l": BIGN_L, "kc": ["00", "10", "01", "11"]}
+        if proto == "BPACE":
+            sw["pwd_len"] = [0, 1, 32, 33, 64]
+        else:
+            sw["cert"] = ["ok", "xp", "yp", "xmax", "off"]
+        add(fn, defaults, sw, expect, build)
+    for proto, idx in (("BMQV", 0), ("BSTS", 1), ("BPACE", 0), ("BAUTH", 0), ("BAUTH", 1)):
+        start(proto, idx)
 
 
 add_belt()
@@ -1688,7 +1738,7 @@ def c15_table():
 
 # props/c15.py sizes the container of bpki*Wrap as len + 120 octets, the library needs len + 128 (length query): under ASan that is the
 # harness's own overflow, so these four builders are not reused (the bpki entries of this module's table cover the same calls)
-C15_SKIP = {"bpkiPrivkeyWrap:pwd", "bpkiPrivkeyWrap:key", "bpkiShareWrap:pwd", "bpkiShareWrap:key"}
+C15_SKIP = set()
 
 
 def alloc_names():
@@ -1909,7 +1959,7 @@ NR_KINDS = ["DWP", "CHE", "KWP", "bignKey", "bpkiPriv", "bpkiShare", "SMcmd", "S
 # ================================================================== deterministic enumerations (every table entry in every run)
 def sweep_args(ctx, part, nparts):
     names = sorted(n for n, F in T.items() if F.args)
-    reps = 2 if ctx.tier == "quick" else 12
+    reps = 3 if ctx.tier == "quick" else 16
     for i, name in enumerate(names):
         if i % nparts != part:
             continue
@@ -1924,7 +1974,7 @@ def sweep_args(ctx, part, nparts):
 
 def sweep_alloc(ctx, part, nparts):
     names = alloc_names()
-    reps = 2 if ctx.tier == "quick" else 12
+    reps = 3 if ctx.tier == "quick" else 16
     for i, name in enumerate(names):
         if i % nparts != part:
             continue
@@ -1953,9 +2003,9 @@ def tests(tier):
     s_nr = st.fixed_dictionaries({"kind": st.sampled_from(NR_KINDS * 3 + sorted(n for n in T if n.startswith("bake") and "Run" in n)), "seed": s_seed(), "n": st.integers(0, 400), "m": st.integers(0, 95),
                                   "part": st.sampled_from(list(range(30))), "pos": st.integers(0, 1023), "bit": st.integers(0, 7)})
     return [
-        Test("allocfail", s_alloc, run_allocfail, {"quick": 800, "thorough": 8000}, ("asanwrap",)),
+        Test("allocfail", s_alloc, run_allocfail, {"quick": 1200, "thorough": 12000}, ("asanwrap",)),
         Sweep("allocfail_all", sweep_alloc, 16, ("asanwrap",)),
-        Test("args", s_args, run_args, {"quick": 800, "thorough": 8000}, ("asan",)),
+        Test("args", s_args, run_args, {"quick": 1200, "thorough": 12000}, ("asan",)),
         Sweep("args_all", sweep_args, 16, ("asan",)),
-        Test("norelease", s_nr, run_norelease, {"quick": 800, "thorough": 8000}, ("asan",)),
+        Test("norelease", s_nr, run_norelease, {"quick": 1200, "thorough": 12000}, ("asan",)),
     ]
